@@ -64,6 +64,7 @@ type vfCtx struct {
 	assumptions []string
 	notes       []string
 	harnessErrs []string
+	tick        int // deadline polling counter (stoppedNow)
 	extra       map[string]any
 	exhaustive  bool
 	idx         int64
@@ -176,6 +177,9 @@ func vfRegister[C any](prop string, gen func(c *vfCtx, emit func(C)), run func(c
 		gen(c, func(cs C) {
 			if !c.mine() {
 				return
+			}
+			if c.stoppedNow() {
+				return // internal deadline: the run ends with exhaustive=false (and exit 0) instead of being killed
 			}
 			if vfDisturb.on && vfDisturb.thin > 1 {
 				// the pass with interposed calls covers a fixed fraction of the largest enumerations in the quick tier
